@@ -782,7 +782,21 @@ def _channels(repo, col, R="R-C12-channels"):
             col.check(ok, R, fi, "current names are united", "if channel.current_name not in ...", f"guard is {g[-1].short(80) if g else None}", node=s.node)
     st = [s for s in ex.stores if s.kind == "sub" and s.base.op == "attr" and s.base.name == "loc"]
     if not st:
-        raise AnalysisError("_gather_channels_from_constituents: fill of the presence columns vanished")
+        # the same fill on the whole column:  nodes[name] = nodes[name].fillna(False)
+        fl = [s_ for s_ in ex.stores if s_.kind == "sub" and s_.base.op == "attr" and s_.base.name == "nodes" and s_.value is not None and
+              s_.value.op == "mcall" and s_.value.name == "fillna"]
+        if not fl:
+            raise AnalysisError("_gather_channels_from_constituents: fill of the presence columns vanished")
+        s_ = fl[0]
+        colk, fv = s_.key, s_.value
+        src = fv.args[0]
+        arg = fv.args[1] if len(fv.args) > 1 else fv.kw.get("value")
+        ok = colk.op == "attr" and colk.name == "_name" and arg is not None and arg.op == "const" and arg.name is False and \
+            src.op == "sub" and src.args[1].key() == colk.key() and src.args[0].op == "attr" and src.args[0].name == "nodes"
+        col.check(ok, R, fi, "only the presence column of each channel is filled with False where it is NaN",
+                  "nodes[name] = nodes[name].fillna(False) (parameters/states of absent channels stay NaN)",
+                  f"fills column {colk.short()} with {fv.short(70)}", node=s_.node)
+        return
     s = st[0]
     rows, colk = s.key.args
     ok = colk.op == "attr" and colk.name == "_name" and s.value.op == "const" and s.value.name is False and \
